@@ -3,6 +3,7 @@
    Same shape as Props/C07b.v.  [bytes_ok bs] says that the elements of the list are octets. *)
 From SV Require Import Lib.Base Gen.WireFields Model.WireBase Proofs.WireBaseProofs.
 From SV Require Import Model.WireIpv6 Model.WireNdiscOpt Proofs.WireNdiscOptProofs.
+From SV Require Import Model.WireIcmpv6Hdr Proofs.WireIcmpv6HdrProofs Model.WireNdisc Proofs.WireNdiscProofs.
 
 (* ---------------- NDISC option ----------------
    The checked view is `NdiscOption::new_checked` (check_len + "a length field of 0 is invalid").
@@ -27,3 +28,38 @@ Print Assumptions C07_ndopt_check_len_total.
 Theorem C07_ndopt_parse_total : forall bs, bytes_ok bs = true -> ndopt_parse bs <> Panic.
 Proof. exact ndopt_parse_total. Qed.
 Print Assumptions C07_ndopt_parse_total.
+
+(* ---------------- NDISC messages ----------------
+   The checked view is `Icmpv6Packet::new_checked` ([icmp6h_check_len]); each NDISC accessor is
+   safe on a packet of the message type it belongs to.  [ndisc_parse] runs the option loop with
+   fuel = |payload| and reports fuel exhaustion as Panic: [C07_ndisc_parse_total] therefore also
+   says that the loop terminates within that fuel; [C07_ndisc_parse_opts_fuel] says that fuel
+   beyond the remaining length never changes the result (an option with length field 0 is
+   rejected by NdiscOption::new_checked, so `offset` grows by at least 8 per iteration). *)
+
+Theorem C07_ndisc_accessors_safe : forall bs,
+  icmp6h_check_len bs = Ok tt ->
+  (icmp6h_msg_type bs = Ok icmp6h_ROUTER_ADVERT ->
+     ndisc_current_hop_limit bs <> Panic /\ ndisc_router_flags bs <> Panic /\ ndisc_router_lifetime bs <> Panic /\
+     ndisc_reachable_time bs <> Panic /\ ndisc_retrans_time bs <> Panic) /\
+  (icmp6h_msg_type bs = Ok icmp6h_NEIGHBOR_SOLICIT -> ndisc_target_addr bs <> Panic) /\
+  (icmp6h_msg_type bs = Ok icmp6h_NEIGHBOR_ADVERT ->
+     ndisc_neighbor_flags bs <> Panic /\ ndisc_target_addr bs <> Panic) /\
+  (icmp6h_msg_type bs = Ok icmp6h_REDIRECT -> ndisc_target_addr bs <> Panic /\ ndisc_dest_addr bs <> Panic).
+Proof. exact ndisc_accessors_safe. Qed.
+Print Assumptions C07_ndisc_accessors_safe.
+
+Theorem C07_ndisc_parse_total : forall bs, bytes_ok bs = true -> ndisc_parse bs <> Panic.
+Proof. exact ndisc_parse_total. Qed.
+Print Assumptions C07_ndisc_parse_total.
+
+Theorem C07_ndisc_icmp_parse_total : forall (sum_ok : list Z -> bool) rx bs,
+  bytes_ok bs = true -> ndisc_icmp_parse sum_ok rx bs <> Panic.
+Proof. exact ndisc_icmp_parse_total. Qed.
+Print Assumptions C07_ndisc_icmp_parse_total.
+
+Theorem C07_ndisc_parse_opts_fuel : forall fuel k p off st,
+  bytes_ok p = true -> 0 <= off -> (Z.to_nat (blen p - off) <= fuel)%nat ->
+  ndisc_parse_opts (fuel + k) p off st = ndisc_parse_opts fuel p off st.
+Proof. exact ndisc_parse_opts_fuel. Qed.
+Print Assumptions C07_ndisc_parse_opts_fuel.
